@@ -843,6 +843,28 @@ func (fr *Frame) execGo(st *State, x *ssa.Go) {
 				args = args[1:]
 			}
 			vars, err := contractVars(ct, cc.Signature(), recv, args, nil)
+			if err == nil && callee.Parent() != nil {
+				// go func(){...}(): captured variables are bound by name from the closure's bindings
+				if fv := fr.get(st, cc.Value); fv != nil && fv.Fn != nil {
+					for i, f := range callee.FreeVars {
+						if i >= len(fv.Fn.Bindings) {
+							continue
+						}
+						if _, bound := vars[f.Name()]; bound {
+							continue
+						}
+						b := fv.Fn.Bindings[i]
+						if _, isPtr := f.Type().Underlying().(*types.Pointer); isPtr {
+							func() {
+								defer func() { recover() }()
+								vars[f.Name()] = c.load(st, b)
+							}()
+						} else {
+							vars[f.Name()] = b
+						}
+					}
+				}
+			}
 			if err == nil {
 				env := &Env{c: c, cur: st, vars: vars, pkg: c.pkgOfContract(ct, callee)}
 				for i, r := range ct.Requires {
